@@ -673,12 +673,17 @@ impl Storage {
     }
 
     pub fn filter_block(&self, block: Block) {
+        let block_number: BlockNumber = block.header().raw().number().unpack();
+        // Skip the scripts which have already been filtered beyond this block: the block may be
+        // downloaded again for another script (e.g. `set_scripts` rewinds the filter syncing),
+        // and indexing it again would restore the cells which were spent by later blocks, since
+        // those later blocks won't be downloaded again.
         let scripts: HashSet<(Script, ScriptType)> = self
             .get_filter_scripts()
             .into_iter()
+            .filter(|ss| ss.block_number <= block_number)
             .map(|ss| (ss.script, ss.script_type))
             .collect();
-        let block_number: BlockNumber = block.header().raw().number().unpack();
         let mut filter_matched = false;
         let mut batch = self.batch();
         let mut txs: HashMap<Byte32, (u32, Transaction)> = HashMap::new();
